@@ -314,8 +314,22 @@ theorem grown_cover {m : Mem w} {a b : Int} (hs : Small m)
     have hg : m.newSize a b - m.size = max (m.size / 2) (m.neededBelow a + m.neededAbove b) := by
       unfold newSize; omega
     obtain ⟨s1, s2, s3⟩ := hs
-    unfold bound neededBelow neededAbove at *
-    omega
+    have n1 : m.neededBelow a = (-(asI64 m.offset + a)).toNat := rfl
+    have n2 : m.neededAbove b = (asI64 m.offset + b - m.size).toNat := rfl
+    generalize m.neededBelow a = nb at *
+    generalize m.neededAbove b = na at *
+    generalize m.addedBelow a b = AB at *
+    generalize m.newSize a b - m.size = N at *
+    generalize asI64 m.offset = O at *
+    generalize m.size = S at *
+    unfold bound at *
+    clear hn
+    have hN : (N : Int) ≤ 2305843009213693952 := by
+      rcases Nat.le_total (S / 2) (nb + na) with c | c
+      · rw [Nat.max_eq_right c] at hg; omega
+      · rw [Nat.max_eq_left c] at hg; omega
+    clear hg
+    refine ⟨by omega, by omega, by omega⟩
 
 theorem makeAccessible_wf' {m : Mem w} {a b : Int} (hwf : WF m) (hs : Small m)
     (ha1 : -bound ≤ a) (ha2 : a ≤ bound) (hb1 : -bound ≤ b) (hb2 : b ≤ bound) :
@@ -605,6 +619,29 @@ theorem history_refines' (ops : List (Op w)) (m : Mem w) (s : Spec w)
     refine ⟨?_, a', wf'⟩
     show (m.apply op).2 :: ((m.apply op).1.run ops).2 = (s.apply op).2 :: ((s.apply op).1.run ops).2
     rw [e, e']
+
+theorem run_append (m : Mem w) (xs ys : List (Op w)) :
+    m.run (xs ++ ys) = ((m.run xs).1.run ys |>.1, (m.run xs).2 ++ ((m.run xs).1.run ys).2) := by
+  induction xs generalizing m with
+  | nil => rfl
+  | cons x xs ih =>
+    show (((m.apply x).1.run (xs ++ ys)).1, (m.apply x).2 :: ((m.apply x).1.run (xs ++ ys)).2) = _
+    rw [ih]
+    rfl
+
+theorem run_length (m : Mem w) (ops : List (Op w)) : (m.run ops).2.length = ops.length := by
+  induction ops generalizing m with
+  | nil => rfl
+  | cons op ops ih =>
+    show ((m.apply op).1.run ops).2.length + 1 = ops.length + 1
+    rw [ih]
+
+/-- Outputs of a prefix of the history do not depend on what comes later. -/
+theorem run_prefix_out (m : Mem w) (xs ys : List (Op w)) (i : Nat) (hi : i < xs.length) :
+    (m.run (xs ++ ys)).2[i]? = (m.run xs).2[i]? := by
+  rw [run_append]
+  simp only
+  rw [List.getElem?_append_left (by rw [run_length]; exact hi)]
 
 end Mem
 
